@@ -216,9 +216,9 @@ Qed.
 
 (* ---- context_map.insert ---- *)
 Lemma map_insert_Forall (Q : nat -> Prop) k v : forall m,
-  Forall (fun p => Q (snd p)) m -> Q v -> Forall (fun p => Q (snd p)) (map_insert k v m).
+  Forall (fun p => Q (snd p)) m -> Q v -> Forall (fun p => Q (snd p)) (cmap_insert k v m).
 Proof.
-  induction m as [|[k' v'] rest IH]; intros Hm Hv; cbn [map_insert].
+  induction m as [|[k' v'] rest IH]; intros Hm Hv; cbn [cmap_insert].
   - constructor; [exact Hv|constructor].
   - inversion Hm as [|? ? H1 H2]; subst. destruct (k' =? k).
     + constructor; [exact Hv|exact H2].
